@@ -1,0 +1,24 @@
+//go:build verif
+
+package gen
+
+// Verification hooks: compiled only with the "verif" build tag.
+
+// VerifBitsPerElement exposes the element width chosen for a generated table.
+func VerifBitsPerElement(arr []int) int { return bitsPerElement(arr) }
+
+// VerifIntArray exposes the text a table is written as.
+func VerifIntArray(arr []int, padding string, maxWidth int) string {
+	return intArray(arr, padding, maxWidth)
+}
+
+// VerifStringSwitch exposes the keyword switch layout: size and (bucket, hash, string, action) per case.
+func VerifStringSwitch(m map[string]int) (size uint32, cases [][4]interface{}) {
+	sw := asStringSwitch(m)
+	for _, c := range sw.Cases {
+		for _, s := range c.Subcases {
+			cases = append(cases, [4]interface{}{c.Value, s.Hash, s.Str, s.Action})
+		}
+	}
+	return sw.Size, cases
+}
